@@ -37,6 +37,8 @@ class Untranslatable(Exception):
 ATTRS = {
     "im_l.energy": ("El", "E"), "self.energy": ("E", "E"), "im_r.energy": ("Er", "E"),
     "im_l.k": ("kl", "E"), "im_r.k": ("kr", "E"), "self.gradient": ("g", "V"),
+    # the same force constants explicitly converted to the unit of the model (Ha / A^2; the model is unit-less)
+    "im_l.k.to('Ha Å^-2')": ("kl", "E"), "im_r.k.to('Ha Å^-2')": ("kr", "E"),
 }
 
 
@@ -401,6 +403,28 @@ PINNED = {
     for image in _list:
         self.images.append_species(image)
     return None""",
+    "partition#max_delta-in-angstrom": """def partition(self, max_delta: Distance, distance_idxs: Optional[Sequence[int]]=None) -> None:
+    assert len(self.images) > 1
+    if isinstance(max_delta, Distance):
+        max_delta = float(max_delta.to('Å'))
+    _list = []
+    for i, left_image in enumerate(self.images[:-1]):
+        right_image = self.images[i + 1]
+        n = 2
+        sub_neb = NEB.from_end_points(left_image, right_image, num=n)
+        while sub_neb._max_atom_distance_between_images(distance_idxs) > max_delta:
+            try:
+                sub_neb = NEB.from_end_points(left_image, right_image, num=n)
+            except RuntimeError:
+                pass
+            n += 1
+        for image in sub_neb.images[:-1]:
+            _list.append(image)
+    _list.append(self.images[-1])
+    self.images.clear()
+    for image in _list:
+        self.images.append_species(image)
+    return None""",
     "_max_atom_distance_between_images": """def _max_atom_distance_between_images(self, idxs: Optional[Sequence[int]]=None) -> Distance:
     if idxs is None:
         idxs = np.arange(self.images[0].n_atoms)
@@ -454,13 +478,16 @@ def pinned_shape_changes(osrc):
     """-> list of messages for hand-modelled functions whose normalised source differs from PINNED."""
     tree = ast.parse(osrc)
     msgs = []
-    for name, want in PINNED.items():
+    for key, want in PINNED.items():
+        name = key.split("#")[0]
+        if "#" in key:
+            continue                     # an accepted alternative text, tried below
         fs = [n for n in ast.walk(tree) if isinstance(n, ast.FunctionDef) and n.name == name]
         if len(fs) != 1:
             msgs.append(f"{name}: found {len(fs)} definitions")
             continue
         got = ast.unparse(ast.fix_missing_locations(_Strip().visit(fs[0])))
-        if got != want:
+        if got != want and got not in [t for k, t in PINNED.items() if k.startswith(name + "#")]:
             gl, wl = got.split("\n"), want.split("\n")
             k = next((i for i, (a, b) in enumerate(zip(gl, wl)) if a != b), min(len(gl), len(wl)))
             msgs.append(f"{name} (original.py:{fs[0].lineno}): line {k + 1} of the normalised body is "
@@ -580,7 +607,7 @@ def main():
     changed = pinned_shape_changes(osrc)
     if changed:
         raise Untranslatable("pinned shape of a hand-modelled function changed: " + " ; ".join(changed))
-    return {"sha256": sha, "spans": where, "increment_lets": let_names, "pinned": sorted(PINNED)}
+    return {"sha256": sha, "spans": where, "increment_lets": let_names, "pinned": sorted(k for k in PINNED if "#" not in k)}
 
 
 if __name__ == "__main__":
